@@ -50,6 +50,27 @@ CHECKS = {
             'self/outside deaths carry the exact exit_code.',
             'The SIM PUB socket records every message (no transport loss); exit_code is judged only for workers '
             'the daemon had not signalled itself.'),
+    'C05': ('SIM', 'exploration',
+            'runtime monitoring: loop monitor charging virtual time.sleep to the loop iteration it blocks, read-only '
+            'probes injected at selector polls, reply-latency oracle against B(op)',
+            'Random overlapping request histories (exclusive and non-exclusive) with stubborn/dying workers; every '
+            'blocked iteration > 0.5 s or dead-lock is reported with the circus call site and a mechanism tag; probes '
+            'at every other selector poll must be answered inside handle_message; waiting replies must arrive within '
+            'B(op). Three blocking-reap mechanisms are known findings (LIVE-confirmed).',
+            'Virtual time: a wait that cannot end is decidable because nothing else can run; hooks never sleep here.'),
+    'C10': ('SIM', 'exploration',
+            'runtime monitoring: second request injected at every selector poll of the first; differential no-effect '
+            'oracle, nesting counter on the synchronized entry points, wedge probe',
+            'Every (A, B, poll) triple for 23 first requests (succeeding, raising synchronously, failing '
+            'asynchronously) and 14 second requests, plus random chains; refusal, no-effect (snapshot and kernel '
+            'ledger equal to the run without B), single exclusive operation in flight, slot freed after every ending.',
+            'Whether A is in flight is sampled when handle_message is entered for B; arbiter-wide restart is LIVE-only.'),
+    'C11': ('SIM', 'exploration',
+            'runtime monitoring: protocol snapshot + kernel ledger before/after every request answered with an error, '
+            'requests generated by labelled corruption operators',
+            'Valid requests of every command corrupted in one or two fields in several daemon states; an error reply '
+            'must leave snapshot (watchers, options, statuses, pids, stats keys, hooks) and kernel ledger unchanged.',
+            'Only synchronous error replies are judged; ok replies are not this property.'),
 }
 
 NOT_YET = {
